@@ -246,3 +246,31 @@ def gen_pairing(rng):
             events.append([end, i, sy, len(lines)])
     lines.append(b"}")
     return b"\n".join(lines) + b"\n", flat(events)
+
+
+D_KW = [b"cppcheck-suppress", b"cppcheck-suppress", b"cppcheck-suppress-begin", b"cppcheck-suppress-end", b"cppcheck-suppress-file",
+        b"cppcheck-suppress-macro", b"cppcheck-suppress-foo", b"cppcheck-suppressx", b"cppcheck-suppress-", b"cppcheck-suppres", b"cppcheck-suppress\t"]
+
+
+def gen_dispatch(rng):
+    """one comment (a single comment token: // to the end of the line, or a closed /* */)"""
+    c_style = rng.random() < 0.25
+    c = b"/*" if c_style else rng.choice([b"//", b"//", b"///", b"// *"])
+    c += rng.choice([b" ", b"", b"  ", b"\t", b" \t "])
+    c += rng.choice([D_KW[0], D_KW[0], D_KW[5]] + D_KW[:6]) if rng.random() < 0.75 else rng.choice(D_KW)
+    form = rng.random()
+    if form < 0.1:
+        pass
+    elif form < 0.55:
+        c += rng.choice([b" ", b" ", b"  ", b"", b"\t"])
+        c += rng.choice([b"nullPointer", b"a", b"*", b"uninitvar", b"", b"id;x", b"a//b", b"9x", b"a$"])
+        for _ in range(rng.randint(0, 2)):
+            c += rng.choice([b" ", b"  ", b"\t"]) + rng.choice(C_ATTR[:12])
+    else:
+        c += rng.choice([b"[", b" [", b"  [", b"["])
+        items = [b"a", b"  b ", b"c symbolName=x", b"nullPointer", b"", b"a", b"g +", b"*", b"d bogus", b"9x", b" "]
+        c += b",".join(rng.choice(items) for _ in range(rng.randint(0, 4)))
+        c += rng.choice([b"]", b"]", b"]", b"", b"] note", b"] ; x"])
+    if c_style:
+        c = c.replace(b"*/", b"* /") + rng.choice([b" */", b"*/"])
+    return c
